@@ -20,7 +20,7 @@ import sigtree as st
 from common import frac_str, run_driver
 
 TRUSTED = [
-    'Lean 4.33.0 kernel; axioms of every theorem in Props/C04.lean within {propext, Classical.choice, Quot.sound}',
+    'Lean 4.33.0 kernel; axioms of every theorem in Props/C04*.lean within {propext, Classical.choice, Quot.sound}',
     'harness/relaxmodel.py, harness/props/c04.py (matching of the code\'s set-ordered multipliers to the model\'s list order by their constraint)',
     'ECOS in the audit stream only',
 ]
